@@ -28,7 +28,7 @@ def run_one(pid, tier, m):
         env = dict(os.environ, VT_REPO=tmp, VT_OUT_DIR=os.path.join(tmp, "out"))
         env.setdefault("VT_WORKERS", "2")
         p = subprocess.run([os.path.join(VERIF, "check"), pid, tier], env=env,
-                           capture_output=True, text=True, timeout=3600)
+                           capture_output=True, text=True, timeout=1500)
         viol = [l for l in p.stdout.splitlines() if l.startswith("VIOLATION")]
         clauses = [l.strip() for l in p.stdout.splitlines() if l.strip().startswith("clause")]
         if p.returncode == 1 and viol:
